@@ -120,6 +120,7 @@ class VStore(ValueStore):
                     H.max_mt_in_flight = H.mt_in_flight
             H.attempts_store[(kind, self.name)] = H.attempts_store.get((kind, self.name), 0) + 1
             H.events.append((H.seq, kind, self.name, threading.get_ident(), None))
+            return H.seq
 
     def _leave(self, kind, counter, extra=None):
         H = self.H
@@ -130,10 +131,11 @@ class VStore(ValueStore):
             else:
                 H.mt_in_flight -= 1
             H.events.append((H.seq, kind, self.name, threading.get_ident(), extra))
+            return H.seq
 
     def read(self):
         H = self.H
-        self._enter("rd", "op")
+        s0 = self._enter("rd", "op")
         try:
             if H.store_hook is not None:
                 H.store_hook("rd", self)
@@ -149,7 +151,8 @@ class VStore(ValueStore):
         except BaseException as e:
             self._leave("rd_raise", "op", type(e).__name__)
             raise
-        self._leave("rd_end", "op")
+        s1 = self._leave("rd_end", "op")
+        self.reads_returned.append((v, s0, s1))
         return v
 
     def write(self, value):
